@@ -241,10 +241,6 @@ def run_property(prop, fn, tier, seed, src=None, write=True, out=sys.stdout):
         )
         status = 2
 
-    if status == 2 and ctx.findings and not err.startswith("checker exception"):
-        # violations already established by exact rules are reported even if a later
-        # anchor is missing; the analysis error is kept in the evidence
-        status = 0
     known = known_for(prop)
     new, matched = [], []
     for f in ctx.findings:
@@ -252,6 +248,10 @@ def run_property(prop, fn, tier, seed, src=None, write=True, out=sys.stdout):
             matched.append(f)
         else:
             new.append(f)
+    if status == 2 and new and not err.startswith("checker exception"):
+        # violations already established by exact rules are reported even if a later
+        # anchor is missing; the analysis error is kept in the evidence
+        status = 0
 
     wall = time.time() - t0
     replay_paths = []
